@@ -94,6 +94,8 @@ impl IOCtx {
     /// The output string should already have line endings resolved. This function writes the
     /// output directly as is.
     pub fn write_output(&mut self, output: &str) -> Result<(), PpError> {
+        #[cfg(feature = "verif")]
+        crate::verif::io_point("write_output");
         match &mut self.out {
             CtxOut::Build { path, out } => out
                 .write_all(output.as_bytes())
@@ -129,6 +131,8 @@ impl IOCtx {
 
     /// Write a temp file to the working directory.
     pub fn write_temp_file(&mut self, temp_path: &str, contents: &str) -> Result<(), PpError> {
+        #[cfg(feature = "verif")]
+        crate::verif::io_point("write_temp_file");
         let p = PathBuf::from(temp_path);
 
         if let CtxOut::Clean { .. } = self.out {
@@ -171,6 +175,8 @@ impl IOCtx {
 
     /// Finish
     pub fn done(mut self) -> Result<(), PpError> {
+        #[cfg(feature = "verif")]
+        crate::verif::io_point("done");
         match &mut self.out {
             CtxOut::Build { path, out } => out
                 .flush()
